@@ -8,7 +8,11 @@ package grpc
 // (bufconn) whose connection is tapped; after the RPC the tapped bytes of both directions
 // are parsed with x/net/http2 (HEADERS -> grpc-encoding, DATA -> gRPC message flags).
 //
-//	op [1, use, wc, wd, accmask, scp, sdc, setn, n, l1, m1, ..., ln, mn]
+//	op [1, use, wc, wd, accmask, scp, sdc, setn, n, l1, m1, ..., ln, mn]          (mode 0)
+//	op [2, mode, use, wc, wd, accmask, scp, sdc, setn, n, l1, m1, ..., ln, mn]
+//	   mode bit 1: the client sends PreparedMsg (Encode on the stream, then SendMsg)
+//	   mode bit 2: the handler sends PreparedMsg (Encode after its SetSendCompressor call)
+//	   mode 4: unary, ClientConn.Invoke against a MethodDesc handler (n = 1)
 //	   names: 0 none, 1 "identity", 2 "gzip", 3 "x-va", 4 "x-vb" (2-4 registered with
 //	   encoding.RegisterCompressor), 5 "x-unreg" (exists only as legacy object / name)
 //	   use  UseCompressor(name)        wc/wd  WithCompressor / WithDecompressor(legacy object)
@@ -21,8 +25,8 @@ package grpc
 //	   the wire: requests the handler received, responses the client received or rejected
 //	   while decoding.
 //
-// Also exercised directly (op [2, cp, comp, len] is not needed: the flag of every message
-// on the wire is the output of the real compress()/msgHeader()).
+// The flag of every message on the wire is the output of the real compress()/msgHeader()
+// (ordinary sends: prepareMsg; PreparedMsg: Encode).
 
 import (
 	"bytes"
@@ -260,8 +264,9 @@ type vCompressSrvState struct {
 	dq      int64
 }
 
-func vCompressRPC(op []int64) []int64 {
+func vCompressRPC(mode int64, op []int64) []int64 {
 	use, wc, wd, am, scp, sdc, setn, n := op[1], op[2], op[3], op[4], op[5], op[6], op[7], int(op[8])
+	prepC, prepS, unary := mode&1 != 0, mode&2 != 0, mode == 4
 	type round struct{ l, m int64 }
 	var rounds []round
 	for i := 0; i < n && 9+2*i+1 < len(op); i++ {
@@ -300,13 +305,57 @@ func vCompressRPC(op []int64) []int64 {
 			}
 			st.mu.Unlock()
 			out := vCompressPattern(rd.m, 100+i)
-			if err := stream.SendMsg(&out); err != nil {
+			if prepS {
+				pm := &PreparedMsg{}
+				if err := pm.Encode(stream, &out); err != nil {
+					return status.Errorf(codes.DataLoss, "verif: Encode: %v", err)
+				}
+				if err := stream.SendMsg(pm); err != nil {
+					return err
+				}
+			} else if err := stream.SendMsg(&out); err != nil {
 				return err
 			}
 		}
 		var in []byte
 		stream.RecvMsg(&in)
 		return nil
+	}
+	uhandler := func(_ any, ctx context.Context, dec func(any) error, _ UnaryServerInterceptor) (any, error) {
+		st.mu.Lock()
+		st.reached = 1
+		st.mu.Unlock()
+		if setn != 0 {
+			err := SetSendCompressor(ctx, vCompressName(setn))
+			st.mu.Lock()
+			if err != nil {
+				st.setres = 2
+			} else {
+				st.setres = 1
+			}
+			st.mu.Unlock()
+		}
+		var in []byte
+		if err := dec(&in); err != nil {
+			if c := status.Code(err); c == codes.Internal || c == codes.Unimplemented || c == codes.ResourceExhausted {
+				st.mu.Lock()
+				st.gotReq++
+				st.mu.Unlock()
+			}
+			return nil, err
+		}
+		st.mu.Lock()
+		st.gotReq++
+		if len(rounds) > 0 && bytes.Equal(in, vCompressPattern(rounds[0].l, 0)) {
+			st.dq++
+		}
+		st.mu.Unlock()
+		var m int64
+		if len(rounds) > 0 {
+			m = rounds[0].m
+		}
+		out := vCompressPattern(m, 100)
+		return &out, nil
 	}
 	sopts := []ServerOption{ForceServerCodec(vCompressCodec{}), WaitForHandlers(true)}
 	if scp != 0 {
@@ -319,6 +368,7 @@ func vCompressRPC(op []int64) []int64 {
 	srv.RegisterService(&ServiceDesc{
 		ServiceName: "v.C",
 		HandlerType: (*any)(nil),
+		Methods:     []MethodDesc{{MethodName: "U", Handler: uhandler}},
 		Streams:     []StreamDesc{{StreamName: "B", Handler: handler, ServerStreams: true, ClientStreams: true}},
 	}, struct{}{})
 	lis := bufconn.Listen(1 << 16)
@@ -370,6 +420,30 @@ func vCompressRPC(op []int64) []int64 {
 			}
 			copts = append(copts, acceptCompressors(names...))
 		}
+		if unary {
+			var l, m int64
+			if len(rounds) > 0 {
+				l, m = rounds[0].l, rounds[0].m
+			}
+			req := vCompressPattern(l, 0)
+			var resp []byte
+			if err := cc.Invoke(ctx, "/v.C/U", &req, &resp, copts...); err != nil {
+				code = int64(status.Code(err))
+				if err == io.EOF {
+					code = -1
+				}
+				if code == int64(codes.Internal) && !strings.Contains(err.Error(), "AcceptCompressors") &&
+					!strings.Contains(err.Error(), "Compressor is not installed for requested") {
+					rejected = true
+				}
+				return
+			}
+			clientGot++
+			if bytes.Equal(resp, vCompressPattern(m, 100)) {
+				dr++
+			}
+			return
+		}
 		cs, err := cc.NewStream(ctx, &StreamDesc{ClientStreams: true, ServerStreams: true}, "/v.C/B", copts...)
 		if err != nil {
 			code = int64(status.Code(err))
@@ -387,7 +461,16 @@ func vCompressRPC(op []int64) []int64 {
 		}
 		for i, rd := range rounds {
 			req := vCompressPattern(rd.l, i)
-			if err := cs.SendMsg(&req); err != nil {
+			var msg any = &req
+			if prepC {
+				pm := &PreparedMsg{}
+				if err := pm.Encode(cs, &req); err != nil {
+					code = -4
+					return
+				}
+				msg = pm
+			}
+			if err := cs.SendMsg(msg); err != nil {
 				var x []byte
 				fail(cs.RecvMsg(&x))
 				return
@@ -447,11 +530,23 @@ func vCompressExec(cfg []int64, ops [][]int64) ([][]int64, bool, []string) {
 	nt := false
 	tagset := map[string]bool{}
 	for _, op := range ops {
-		if len(op) < 11 || op[0] != 1 || op[8] < 1 || int(op[8])*2+9 != len(op) {
+		mode := int64(0)
+		if len(op) > 2 && op[0] == 2 {
+			mode = op[1]
+			op = append([]int64{1}, op[2:]...)
+		}
+		if len(op) < 11 || op[0] != 1 || op[8] < 1 || int(op[8])*2+9 != len(op) || mode < 0 || mode > 4 ||
+			(mode == 4 && op[8] != 1) {
 			obs = append(obs, []int64{})
 			continue
 		}
-		o := vCompressRPC(op)
+		o := vCompressRPC(mode, op)
+		switch {
+		case mode == 4:
+			tagset["unary"] = true
+		case mode != 0:
+			tagset["prepared-msg"] = true
+		}
 		obs = append(obs, o)
 		if len(o) >= 7 {
 			if o[3] > 1 || o[4] > 1 {
@@ -487,6 +582,11 @@ func vCompressExec(cfg []int64, ops [][]int64) ([][]int64, bool, []string) {
 
 func vCompressMkOp(use, wc, wd, am, scp, sdc, setn int64, lens ...int64) []int64 {
 	op := []int64{1, use, wc, wd, am, scp, sdc, setn, int64(len(lens) / 2)}
+	return append(op, lens...)
+}
+
+func vCompressMkOpM(mode, use, wc, wd, am, scp, sdc, setn int64, lens ...int64) []int64 {
+	op := []int64{2, mode, use, wc, wd, am, scp, sdc, setn, int64(len(lens) / 2)}
 	return append(op, lens...)
 }
 
@@ -546,6 +646,42 @@ func vCompressGen(r *vRand, tier string, idx int) ([]int64, [][]int64) {
 			vCompressMkOp(2, 0, 0, 0, 0, 0, 0, 0, 0, 7, 7),
 			vCompressMkOp(0, 3, 0, 0, 0, 0, 0, 0, 0),
 			vCompressMkOp(4, 0, 0, 0, 0, 0, 3, 1, 0))
+	case idx == 14: // clause 10 alone: the handler sends PreparedMsg after SetSendCompressor
+		ops = append(ops,
+			vCompressMkOpM(2, 2, 0, 0, 0, 0, 0, 1, 5, 5),
+			vCompressMkOpM(2, 0, 0, 0, 0, 0, 0, 2, 5, 5),
+			vCompressMkOpM(2, 2, 0, 0, 0, 0, 0, 3, 5, 5))
+	case idx == 15: // PreparedMsg on the server: every client encoding x every SetSendCompressor name
+		for _, use := range []int64{0, 1, 2, 3} {
+			for setn := int64(0); setn <= 5; setn++ {
+				ops = append(ops, vCompressMkOpM(2, use, 0, 0, 0, 0, 0, setn, 4, 4))
+			}
+		}
+		for _, scp := range []int64{3, 5} {
+			for _, setn := range []int64{0, 1, 4} {
+				ops = append(ops, vCompressMkOpM(3, 0, 0, scp, 0, scp, 0, setn, 4, 4))
+			}
+		}
+	case idx == 16: // PreparedMsg on the client (and on both sides without SetSendCompressor)
+		for _, mode := range []int64{1, 3} {
+			for _, use := range []int64{0, 1, 2, 4, 5} {
+				ops = append(ops, vCompressMkOpM(mode, use, 0, 0, 0, 0, 0, 0, 6, 6, 0, 3))
+			}
+			for _, wc := range []int64{2, 3, 5} {
+				ops = append(ops, vCompressMkOpM(mode, 0, wc, 0, 0, 0, wc, 0, 6, 6))
+				ops = append(ops, vCompressMkOpM(mode, 0, wc, 0, 0, 0, 0, 0, 6, 6))
+			}
+		}
+	case idx == 17: // unary Invoke: client encoding x SetSendCompressor x RPCCompressor
+		for _, use := range []int64{0, 2, 4, 5} {
+			for _, setn := range []int64{0, 1, 3, 5} {
+				for _, scp := range []int64{0, 3} {
+					ops = append(ops, vCompressMkOpM(4, use, 0, 0, 0, scp, 0, setn, 5, 5))
+				}
+			}
+		}
+		ops = append(ops, vCompressMkOpM(4, 0, 5, 0, 0, 0, 0, 0, 5, 5), vCompressMkOpM(4, 0, 0, 0, 2, 0, 0, 3, 5, 5),
+			vCompressMkOpM(4, 0, 0, 0, 0, 5, 0, 0, 5, 5), vCompressMkOpM(4, 3, 0, 0, 0, 0, 0, 0, 0, 0))
 	default:
 		n := 6 + r.Intn(10)
 		for i := 0; i < n; i++ {
@@ -570,12 +706,23 @@ func vCompressGen(r *vRand, tier string, idx int) ([]int64, [][]int64) {
 					lens = append(lens, r.PickI64(0, 0, 1, 7, 40, 300))
 				}
 			}
-			ops = append(ops, vCompressMkOp(use, wc, wd, am, scp, sdc, setn, lens...))
+			mode := r.PickI64(0, 0, 0, 1, 2, 3, 4)
+			if mode == 4 {
+				lens = lens[:2]
+			}
+			if idx%3 != 0 && mode&2 != 0 {
+				setn = 0 // outside the class of clause 10
+			}
+			if mode == 0 {
+				ops = append(ops, vCompressMkOp(use, wc, wd, am, scp, sdc, setn, lens...))
+			} else {
+				ops = append(ops, vCompressMkOpM(mode, use, wc, wd, am, scp, sdc, setn, lens...))
+			}
 		}
 	}
 	return []int64{}, ops
 }
 
 func TestVerif_Compress(t *testing.T) {
-	vRunDriver(t, "Compress", 26, 400, vCompressGen, vCompressExec)
+	vRunDriver(t, "Compress", 30, 400, vCompressGen, vCompressExec)
 }
